@@ -91,15 +91,23 @@ def parseTraj : String → Option Traj
 
 def ceilDiv (a b : Nat) : Nat := (a + b - 1) / b
 
+/-- Tables shared by all requests of one driver run (cell values do not depend on the table
+size, so one table of the largest size requested so far serves every request). -/
+structure Tabs where
+  size : Nat
+  memo : Array (Array Cell)
+  tab : Option (Array (Array TCell))
+
+def Tabs.mk' (n : Nat) : Tabs := { size := n, memo := dpTable memoF n (n + 1), tab := mixedTab n n }
+
 /-- planners for the two code paths of mixed.py -/
-def memoPlanner (nmax smax : Nat) : Planner :=
-  let t := dpTable memoF nmax (smax + 1)
+def memoPlanner (T : Tabs) : Planner :=
   fun m k =>
     let s := clampS m k
-    if validKey m s then some (dpGet t m s) else none
+    if validKey m s then some (dpGet T.memo m s) else none
 
-def tabPlanner (n s : Nat) : Planner :=
-  match mixedTab n s with
+def tabPlanner (T : Tabs) : Planner :=
+  match T.tab with
   | none => fun _ _ => none
   | some t => fun m k =>
     let c := tabGet t m k
@@ -109,54 +117,63 @@ def tabPlanner (n s : Nat) : Planner :=
 structure ClassSpec where
   sched : Except Err Sched
   cfg : Nat → Cfg
+  /-- the parameter tuple lies in the documented domain (C17) -/
+  valid : Bool
 
 def parseCosts : List String → Option Costs
   | [uf, ub, wd, rd] => do pure ⟨← uf.toNat?, ← ub.toNat?, ← wd.toNat?, ← rd.toNat?⟩
   | _ => none
 
-def parseClass : List String → Option ClassSpec
+def parseClass (T : Tabs) : List String → Option ClassSpec
   | ["SM"] => some ⟨.ok singleMemorySched,
-      fun N => { N := N, ram := some 0, disk := some 0, passes := none, keepsAllDeps := true, online := true }⟩
+      fun N => { N := N, ram := some 0, disk := some 0, passes := none, keepsAllDeps := true, online := true }, true⟩
   | ["SD", mv] => do
     let mv ← s2b mv
     pure ⟨.ok (singleDiskSched mv),
       fun N => { N := N, ram := some 0, disk := some N, passes := if mv then some 1 else none,
-                 keepsAllDeps := false, online := true }⟩
+                 keepsAllDeps := false, online := true }, true⟩
   | ["NO"] => some ⟨.ok noneSched,
-      fun N => { N := N, ram := some 0, disk := some 0, passes := some 0, keepsAllDeps := false, online := true }⟩
+      fun N => { N := N, ram := some 0, disk := some 0, passes := some 0, keepsAllDeps := false, online := true }, true⟩
   | ["TL", p, b, st, traj] => do
     let p ← p.toNat?; let b ← b.toNat?; let st ← parseSt st; let traj ← parseTraj traj
     pure ⟨twoLevelSched p b st traj,
       fun N => { N := N,
                  ram := if st = .ram then some b else some 0,
                  disk := if st = .ram then some (ceilDiv N p) else some (ceilDiv N p + b),
-                 passes := none, keepsAllDeps := false, online := true }⟩
+                 passes := none, keepsAllDeps := false, online := true },
+      decide (1 ≤ p) && (st = .ram || st = .disk)⟩
   | ["MS", n, ram, disk, traj] => do
     let n ← n.toNat?; let ram ← ram.toNat?; let disk ← disk.toNat?; let traj ← parseTraj traj
     pure ⟨multistageSched n ram disk traj,
-      fun N => { N := N, ram := some ram, disk := some disk, passes := some 1, keepsAllDeps := false, online := false }⟩
+      fun N => { N := N, ram := some ram, disk := some disk, passes := some 1, keepsAllDeps := false, online := false },
+      decide (1 ≤ n) && (decide (n = 1) || decide (1 ≤ ram + disk))⟩
   | ["MX", n, s, st, numba] => do
     let n ← n.toNat?; let s ← s.toNat?; let st ← parseSt st; let numba ← s2b numba
-    let plan := if numba then tabPlanner n (min s (n - 1)) else memoPlanner n (min s (n - 1))
+    let plan := if numba then tabPlanner T else memoPlanner T
     pure ⟨mixedSched plan n s st,
       fun N => { N := N, ram := if st = .ram then some s else some 0, disk := if st = .disk then some s else some 0,
-                 passes := some 1, keepsAllDeps := false, online := false }⟩
+                 passes := some 1, keepsAllDeps := false, online := false },
+      decide (1 ≤ n) && decide (min 1 (n - 1) ≤ s) && (st = .ram || st = .disk)⟩
   | "RV" :: n :: cm :: costs => do
     let n ← n.toNat?; let cm ← cm.toNat?; let c ← parseCosts costs
     pure ⟨revolveSched n cm c,
-      fun N => { N := N, ram := some cm, disk := some 0, passes := some 1, keepsAllDeps := false, online := false }⟩
+      fun N => { N := N, ram := some cm, disk := some 0, passes := some 1, keepsAllDeps := false, online := false },
+      decide (1 ≤ n) && decide (1 ≤ cm) && decide (0 < c.uf) && decide (0 < c.ub)⟩
   | "DR" :: n :: cm :: costs => do
     let n ← n.toNat?; let cm ← cm.toNat?; let c ← parseCosts costs
     pure ⟨diskRevolveSched n cm c,
-      fun N => { N := N, ram := some cm, disk := none, passes := some 1, keepsAllDeps := false, online := false }⟩
+      fun N => { N := N, ram := some cm, disk := none, passes := some 1, keepsAllDeps := false, online := false },
+      decide (1 ≤ n) && decide (1 ≤ cm) && decide (0 < c.uf) && decide (0 < c.ub)⟩
   | "PD" :: n :: cm :: costs => do
     let n ← n.toNat?; let cm ← cm.toNat?; let c ← parseCosts costs
     pure ⟨periodicSched n cm c,
-      fun N => { N := N, ram := some cm, disk := none, passes := some 1, keepsAllDeps := false, online := false }⟩
+      fun N => { N := N, ram := some cm, disk := none, passes := some 1, keepsAllDeps := false, online := false },
+      decide (1 ≤ n) && decide (1 ≤ cm) && decide (0 < c.uf) && decide (0 < c.ub)⟩
   | "HR" :: n :: c0 :: c1 :: costs => do
     let n ← n.toNat?; let c0 ← c0.toNat?; let c1 ← c1.toNat?; let c ← parseCosts costs
     pure ⟨hrevolveSched n c0 c1 c,
-      fun N => { N := N, ram := some c0, disk := some c1, passes := some 1, keepsAllDeps := false, online := false }⟩
+      fun N => { N := N, ram := some c0, disk := some c1, passes := some 1, keepsAllDeps := false, online := false },
+      decide (1 ≤ n) && decide (1 ≤ c0) && decide (0 < c.uf) && decide (0 < c.ub)⟩
   | _ => none
 
 def tagName : Tag → String
@@ -317,39 +334,50 @@ partial def readTrace (h : IO.FS.Stream) (acc : Array Line) : IO (Array Line) :=
   if s = "ENDTRACE" then return acc
   readTrace h (acc.push (parseLine s))
 
-partial def loop (h : IO.FS.Stream) (out : IO.FS.Stream) : IO Unit := do
+/-- the largest `max_n` of a Mixed request in these words -/
+def mixedSize : List String → Nat
+  | "MX" :: n :: _ => n.toNat?.getD 0
+  | _ => 0
+
+partial def loop (h : IO.FS.Stream) (out : IO.FS.Stream) (T : Tabs) : IO Unit := do
   let line ← h.getLine
   if line.isEmpty then return ()
   let ws := (line.trimAsciiEnd.toString.splitOn " ").filter (· ≠ "")
+  let need := mixedSize (ws.drop 1)
+  let T := if need > T.size then Tabs.mk' (max need (2 * T.size)) else T
   match ws with
   | "gen" :: rest =>
     let (cw, nums) := splitAt rest
-    match parseClass cw, nums.map String.toNat? with
+    match parseClass T cw, nums.map String.toNat? with
     | some cs, [some Nfin, some k] =>
       for l in genTrace cs Nfin k do out.putStrLn l
     | _, _ => out.putStrLn "?"
   | "mon" :: rest =>
     let (cw, nums) := splitAt rest
     let tr ← readTrace h #[]
-    match parseClass cw, nums.map String.toNat? with
+    match parseClass T cw, nums.map String.toNat? with
     | some cs, [some Nfin, some k] =>
       for (i, v) in monitor (cs.cfg Nfin) k tr.toList do
         out.putStrLn s!"V {i} {tagName v.tag} {v.code}"
     | _, _ => out.putStrLn "?"
   | "hist" :: rest =>
     let (cw, ops) := splitAt rest
-    match parseClass cw with
+    match parseClass T cw with
     | some cs =>
       match cs.sched with
       | .error e => out.putStrLn ("X " ++ errStage e)
       | .ok s => for l in runHist s ops do out.putStrLn l
+    | none => out.putStrLn "?"
+  | "valid" :: rest =>
+    match parseClass T rest with
+    | some cs => out.putStrLn (b2s cs.valid)
     | none => out.putStrLn "?"
   | "kernel" :: rest =>
     for l in kernel rest do out.putStrLn l
   | _ => out.putStrLn "?"
   out.putStrLn "."
   out.flush
-  loop h out
+  loop h out T
 
 def main : IO Unit := do
-  loop (← IO.getStdin) (← IO.getStdout)
+  loop (← IO.getStdin) (← IO.getStdout) (Tabs.mk' 16)
